@@ -163,7 +163,7 @@ def run_intro(kind: str, a0: int, b0: int, s0: int, i0: int, d1: int, a1: int, b
 # ---------------------------------------------------------------------------------------------
 def run_hook(n: int, inv_mask: int, via: int) -> Tuple[bool, bool]:
     """Create a chain of n classes through the inheriting metaclass; every one is announced exactly once."""
-    n, inv_mask, via = conc(n, 1, 4), conc(inv_mask, 0, 15), conc(via, 0, 2)
+    n, inv_mask, via = conc(n, 1, 4), conc(inv_mask, 0, 15), conc(via, 0, 3)
     with untraced():
         seen = []  # type: List[type]
         orig = icontract._metaclass._register_for_hypothesis
@@ -173,7 +173,10 @@ def run_hook(n: int, inv_mask: int, via: int) -> Tuple[bool, bool]:
             prev = icontract.DBC  # type: Any
             for k in range(n):
                 ns = {"m": (lambda self: k)}  # type: Dict[str, Any]
-                if via == 0:
+                if via == 3:
+                    # ``class K0(metaclass=icontract.DBCMeta)`` - no DBC base at the root of the chain
+                    cls = icontract.DBCMeta("K%d" % k, (() if k == 0 else (prev,)), ns)
+                elif via == 0:
                     cls = icontract.DBCMeta("K%d" % k, (prev,), ns)
                 elif via == 1:
                     cls = type(prev)("K%d" % k, (prev,), ns)
@@ -227,8 +230,9 @@ def harnesses(tier: str) -> List[H]:
                                         kind, ["absent", "not overriding", "overriding with %s own preconditions" % a1][d1]),
                              family_size=36 * (2 if has_inv else 1) * [1, 2, 4][d1]))
     out.append(H("hook", bind(run_hook, (), ["n", "inv_mask", "via"], {}, ["n", "inv_mask", "via"]),
-                 [I("n", 1, 4), I("inv_mask", 0, 15), I("via", 0, 2)], tiers=(tier,), timeout=200,
-                 family="chains of 1..4 classes created through DBCMeta(...), type(base)(...) or types.new_class, any "
+                 [I("n", 1, 4), I("inv_mask", 0, 15), I("via", 0, 3)], tiers=(tier,), timeout=200,
+                 family="chains of 1..4 classes created through DBCMeta(...), type(base)(...), types.new_class, or rooted in a class "
+                        "with metaclass=DBCMeta and no DBC base, any "
                         "subset carrying an invariant; recorder installed in place of the registration hook",
                  family_size=4 * 16 * 3))
     return out
